@@ -50,11 +50,21 @@ func c01Bulk(b int) []refdb.Doc {
 		return []refdb.Doc{mk(1002, 1, 30), mk(1001, 2, 64)}
 	case 4:
 		return []refdb.Doc{mk(1003, 1, 25), mk(1003, 2, 26), mk(1004, 3, 150)}
+	case 5:
+		// token-heavy bulk (C08): the token dictionary of the sealed index spans many 64-byte token blocks
+		docs := []refdb.Doc{mk(1005, 1, 40), mk(1005, 2, 33), mk(1006, 1, 70)}
+		for i := range docs {
+			for j := 0; j < 4; j++ {
+				docs[i].Toks = append(docs[i].Toks, refdb.Tok{F: "d", V: fmt.Sprintf("d%d-%d-%s", i, j, "qwertyuiopas")})
+			}
+			docs[i].Toks = append(docs[i].Toks, refdb.Tok{F: "s", V: fmt.Sprintf("e%d-%s", i, "zxcvbnmasdfghjklqwerty")}, refdb.Tok{F: "p", V: "shared-token-of-bulk-five"})
+		}
+		return docs
 	}
 	panic(b)
 }
 
-const c01Universe = 4
+const c01Universe = 5
 
 // ---- worker ----
 
